@@ -65,18 +65,21 @@ package hessian
 //@   ensures [C13,C01:error-only-from-the-writer] err != nil ==> @W
 
 //@ func (*Encoder).writeInt
+//@   atcall (*Encoder).writeBytes [C07,C02,C01:int-bytes-are-the-codecs] G.intAt(arg1, 0) && len(arg1) == 1 + G.intRest(arg1[0]) && G.decInt(arg1, 0) == value && len(arg1) == G.intLen(value)
 //@   assigns @out, @W, @nwrites, @tr
 //@   sets @tr = snoc(old(@tr), TInt(value))
 //@   ensures [C15:W] (@W && !old(@W)) ==> err != nil
 //@   ensures [C13,C01:error-only-from-the-writer] err != nil ==> @W
 
 //@ func (*Encoder).writeLong
+//@   atcall (*Encoder).writeBytes [C07,C02,C01:long-bytes-are-the-codecs] G.longAt(arg1, 0) && len(arg1) == 1 + G.longRest(arg1[0]) && G.decLong(arg1, 0) == value && len(arg1) == G.longLen(value)
 //@   assigns @out, @W, @nwrites, @tr
 //@   sets @tr = snoc(old(@tr), TLong(value))
 //@   ensures [C15:W] (@W && !old(@W)) ==> err != nil
 //@   ensures [C13,C01:error-only-from-the-writer] err != nil ==> @W
 
 //@ func (*Encoder).writeDouble
+//@   atcall (*Encoder).writeBytes [C08,C02,C01:double-bytes-are-the-codecs] G.doubleAt(arg1, 0) && len(arg1) == 1 + G.doubleRest(arg1[0]) && G.sameNum(G.decDouble(arg1, 0), value) && (!isnan(value) ==> len(arg1) == G.doubleLen(value))
 //@   assigns @out, @W, @E, @nwrites, @tr
 //@   sets @tr = snoc(old(@tr), TDouble(value))
 //@   ensures [C15:W] (@W && !old(@W)) ==> err != nil
@@ -84,18 +87,21 @@ package hessian
 //@   ensures [C13:E] (@E && !old(@E)) ==> err != nil
 
 //@ func (*Encoder).writeBoolean
+//@   atcall (*Encoder).writeBytes [C01,C02:bool-bytes-are-the-codecs] len(arg1) == 1 && arg1[0] == ite(value, 'T', 'F')
 //@   assigns @out, @W, @nwrites, @tr
 //@   sets @tr = snoc(old(@tr), TBool(value))
 //@   ensures [C15:W] (@W && !old(@W)) ==> err != nil
 //@   ensures [C13,C01:error-only-from-the-writer] err != nil ==> @W
 
 //@ func (*Encoder).writeBinary
+//@   atcall (*Encoder).writeBytes [C09,C02,C01:binary-bytes-are-the-codecs] (len(value) == 0 ==> len(arg1) == 1 && arg1[0] == 0x20) && (len(value) != 0 ==> streamOf(arg1) == G.binProd(value, _binaryChunkSize))
 //@   assigns @out, @W, @nwrites, @tr
 //@   sets @tr = snoc(old(@tr), TBin(value))
 //@   ensures [C15:W] (@W && !old(@W)) ==> err != nil
 //@   ensures [C13,C01:error-only-from-the-writer] err != nil ==> @W
 
 //@ func (*Encoder).writeString
+//@   atcall (*Encoder).writeBytes [C09,C02,C01:string-bytes-are-the-codecs] (value == "" ==> len(arg1) == 1 && arg1[0] == 0x00) && (value != "" ==> streamOf(arg1) == G.strProd(runes(value), _stringChunkSize))
 //@   assigns @out, @W, @nwrites, @tr
 //@   sets @tr = snoc(old(@tr), TStr(value))
 //@   ensures [C15:W] (@W && !old(@W)) ==> err != nil
